@@ -22,7 +22,7 @@ RULE = ("Pool of (text, ts, options) triples (bundled corpus samples, range/dura
         "stream and single-result call computed in a FRESH PYTHONHASHSEED=0 subprocess. (a) Hypothesis "
         "stateful machine: full call / open stream / advance a stream k steps / abandon / close / call "
         "whose scorer raises after j scorings / stream whose scorer raises; invariant: every completed "
-        "call or stream equals the baseline. (b) ALL interleavings of the steps of two streams with "
+        "call or stream equals the baseline, and result objects handed out earlier still read the same; the fresh baseline is also computed with the pool in reverse order (must agree). (b) ALL interleavings of the steps of two streams with "
         "n1+n2 <= 12 steps. (c) 8 threads, switch interval 1e-6, each parsing the shuffled pool. (d) "
         "baseline recomputed under PYTHONHASHSEED 1, 2, 3, random. (e) deep snapshots of rule registry, "
         "pattern tables and model tables before/after; scorer argument compared by pickle. Non-trivial = "
@@ -34,7 +34,10 @@ POOL_TEXTS = ["friday 9-5", "8:00 pm - 9:00 pm", "tomorrow 8-10 uhr", "May 5th 2
               "lunch with bob #work #food friday noon", "gargelbabel", "", "at", "1 2 3", "very early morning",
               "between 8 and 10 on monday", "übermorgen um halb acht", "31.04.2020", "22-2", "EOM",
               "next friday", "5.10. - 8.10.", "two days", "now", "12am", "#a #b #c #d tomorrow 5pm",
-              "gargelbabel #one #two #three #four", "#zeta #alpha #mid monday #beta #omega", "so mo di #x #y"]
+              "gargelbabel #one #two #three #four", "#zeta #alpha #mid monday #beta #omega", "so mo di #x #y",
+              # the same token in different multiplicities / the same word at different offsets
+              "tomorrow tomorrow", "tomorrow", "mon tue wed thu", "mon tue", "8pm 9pm 10pm", "8pm 9pm", "5 5 5", "5 5",
+              "tomorrow at midnight", "party at midnight", "midnight", "um mitternacht morgen", "noon", "lunch at noon tomorrow"]
 OPTS = [
     {},
     {"latent_time": False},
@@ -124,7 +127,9 @@ def snap_diff(a, b):
 # fresh-process baseline
 
 
-def fresh_baseline(pool, hashseed):
+def fresh_baseline(pool, hashseed, reverse=False):
+    if reverse:
+        return list(reversed(fresh_baseline(list(reversed(pool)), hashseed)))
     env = dict(os.environ)
     env["PYTHONHASHSEED"] = str(hashseed)
     code = ("import sys, json; sys.path.insert(0, %r); import logging; logging.disable(logging.CRITICAL);"
@@ -233,10 +238,26 @@ def make_machine(pool, base, acc, pool_id=None):
         def __init__(self):
             super().__init__()
             self.open = []   # [idx, generator, collected]
+            self.kept = []
             self.hist = []
             self.disturbed = False
 
+        def _keep(self, objs):
+            # results handed out earlier must not be altered by later calls (no aliasing with shared state)
+            for c in objs:
+                if c is not None and len(self.kept) < 60:
+                    self.kept.append((c, tup(c), len(self.hist)))
+
+        def _check_kept(self):
+            for c, t, at in self.kept:
+                if tup(c) != t:
+                    acc.fail("earlier-result-altered-by-later-call", {"history": list(self.hist), "kind": "aliasing", "pool": pool_id},
+                             "result handed out at step {} read {} and now reads {}".format(at, t, tup(c)))
+                    self.kept = []
+                    return
+
         def _cmp(self, kind, idx, got):
+            self._check_kept()
             exp = base[idx][kind]
             case = {"history": list(self.hist), "entry": pool[idx], "kind": kind, "pool": pool_id}
             acc.case(("hist", json.dumps(self.hist)), nontrivial=self.disturbed,
@@ -250,13 +271,17 @@ def make_machine(pool, base, acc, pool_id=None):
         def full_call(self, i):
             self.hist.append(["call", i])
             t, ts, o = pool[i]
-            self._cmp("single", i, tup(m.ctparse(t, core.parse_ts(ts), **kwargs(o))))
+            r = m.ctparse(t, core.parse_ts(ts), **kwargs(o))
+            self._cmp("single", i, tup(r))
+            self._keep([r])
 
         @rule(i=st.integers(0, n - 1))
         def full_stream(self, i):
             self.hist.append(["stream", i])
             t, ts, o = pool[i]
-            self._cmp("stream", i, [tup(c) for c in m.ctparse_gen(t, core.parse_ts(ts), **kwargs(o))])
+            lst = list(m.ctparse_gen(t, core.parse_ts(ts), **kwargs(o)))
+            self._cmp("stream", i, [tup(c) for c in lst])
+            self._keep(lst[:3])
 
         @rule(i=st.integers(0, n - 1))
         def open_stream(self, i):
@@ -306,6 +331,7 @@ def make_machine(pool, base, acc, pool_id=None):
                 self.disturbed = True
 
         def teardown(self):
+            self._check_kept()
             for ent in self.open:
                 try:
                     ent[1].close()
@@ -431,6 +457,13 @@ def run(ctx):
         acc.case(("fresh-vs-inprocess", idx), nontrivial=False, cls="fresh-process-vs-this-process", sample={"entry": e})
         if got != base[idx]:
             acc.fail("differs-from-fresh-process", {"entry": e, "kind": "fresh"}, "got {} expected {}".format(str(got)[:300], str(base[idx])[:300]))
+    # the fresh process itself must not depend on the order in which it meets the pool
+    rev = fresh_baseline(pool, 0, reverse=True)
+    for idx, e in enumerate(pool):
+        acc.case(("fresh-reversed", idx), nontrivial=True, cls="fresh-process-pool-order-reversed", sample={"entry": e})
+        if rev[idx] != base[idx]:
+            acc.fail("result-depends-on-history:order-of-calls-in-a-fresh-process", {"entry": e, "kind": "order", "pool": [ctx.seed, 150 if ctx.thorough else 48]},
+                     "pool parsed first-to-last: {} ; last-to-first: {}".format(str(base[idx])[:300], str(rev[idx])[:300]))
     # (d) hash seeds
     for hs in ["1", "2", "3", "random"]:
         other = fresh_baseline(pool, hs)
@@ -486,6 +519,19 @@ def replay(case):
         for bk, lst in acc.failures.items():
             return (bk, lst[0][1])
         return None
+    if kind == "order":
+        pool = build_pool(case["pool"][0], case["pool"][1])
+        a, b = fresh_baseline(pool, 0), fresh_baseline(pool, 0, reverse=True)
+        for i, e in enumerate(pool):
+            if e == case["entry"] and a[i] != b[i]:
+                return ("result-depends-on-history:order-of-calls-in-a-fresh-process", "{} vs {}".format(str(a[i])[:200], str(b[i])[:200]))
+        return None
+    if kind == "aliasing":
+        pool = build_pool(case["pool"][0], case["pool"][1])
+        base = fresh_baseline(pool, 0)
+        acc = core.Acc("C12")
+        M = make_machine(pool, base, acc, case["pool"])
+        return None  # aliasing needs the live objects of the history; re-run the check to reproduce
     if kind in ("fresh", "threads", "hashseed"):
         e = case["entry"]
         base = fresh_baseline([e], 0)[0]
